@@ -169,6 +169,20 @@ def preload_rule(ctx, p, K):
         i, r = S_(l0.var), S_(l1.var)
         ok = is_full_range(l0, [S_(f"{N}.shape[0]")]) and l1.lo == ZERO and l1.step == ONE and l1.hi in (Poly.fn("int", E_(lens.name, i)), E_(lens.name, i)) \
             and sp[0].value.idx == (i, r) and si[0].value.idx == (i, r) and acc_name_of(sp[0].idx[0]) is not None and sp[0].idx[0] == S_(acc_name_of(sp[0].idx[0]) + "~")
+    sliced = False
+    if not ok and len(sp) == 1 and len(si) == 1 and isinstance(sp[0].value, Ref) and isinstance(si[0].value, Ref) and sp[0].idx == si[0].idx and len(sp[0].loops) == 1 \
+            and tuple(id(l) for l in sp[0].loops) == tuple(id(l) for l in si[0].loops):
+        # the same copy written row-block by row-block: preload[c : c + n_i] = tmp[i, 0 : n_i], c += n_i  (n_i = lengths[i])
+        l0 = sp[0].loops[0]
+        i = S_(l0.var)
+        cn = acc_name_of(sp[0].idx[0]) if len(sp[0].idx) == 1 else None
+        for n_i in (Poly.fn("int", E_(lens.name, i)), E_(lens.name, i)):
+            if cn and sp[0].idx == (Poly.fn("slice", S_(cn + "~"), S_(cn + "~") + n_i, S_("None")),) and sp[0].value.idx == (i, Poly.fn("slice", ZERO, n_i, S_("None"))) \
+                    and si[0].value.idx == sp[0].value.idx and is_full_range(l0, [S_(f"{N}.shape[0]")]):
+                incs_ = [(v, op, g, l) for (nm, v, op, g, l, n) in S.assigns if nm == cn and op != "="]
+                sliced = len(incs_) == 1 and incs_[0][0] == n_i and incs_[0][1] == "+=" and not real_guards(incs_[0][2]) and len(incs_[0][3]) == 1
+    if sliced:
+        ok = True
     ctx.ob(rule, f.key + ":compaction", ok, where=f, node=sp[0].node if sp else f.node, construct=repr(sp[0])[:150] if sp else "",
            message="the flat preload / index tables must copy rows [i, r < lengths[i]] of the per-pixel tables in order, one slot per entry")
     if not ok:
@@ -176,7 +190,7 @@ def preload_rule(ctx, p, K):
     tv, ti = sp[0].value.name, si[0].value.name
     cnt = acc_name_of(sp[0].idx[0])
     incs = [(v, op, g, l) for (nm, v, op, g, l, n) in S.assigns if nm == cnt and op != "="]
-    ctx.ob(rule, f.key + ":compaction-count", len(incs) == 1 and incs[0][0] == ONE and incs[0][1] == "+=" and not real_guards(incs[0][2]) and len(incs[0][3]) == 2,
+    ctx.ob(rule, f.key + ":compaction-count", sliced or (len(incs) == 1 and incs[0][0] == ONE and incs[0][1] == "+=" and not real_guards(incs[0][2]) and len(incs[0][3]) == 2),
            where=f, node=sp[0].node, construct=f"{cnt}: {[(op, repr(v)) for v, op, *_ in incs]}", message="the flat slot counter must advance by 1 once per copied entry, unconditionally")
     # per-pixel table stage
     sv, sx = S.stores_to(tv), S.stores_to(ti)
